@@ -81,7 +81,7 @@ def packet_ids_of(ids):
     return [PacketId.from_raw(x) for x in ids]
 
 
-@obligation(["C13"], "parse_space_packets", verifies=[Q, "spacepackets.ccsds.spacepacket:__handle_packet_id_match"], feas_timeout_ms=150, shards=14, shard_depth=40)
+@obligation(["C13"], "parse_space_packets", verifies=[Q, "spacepackets.ccsds.spacepacket:__handle_packet_id_match"], feas_timeout_ms=150, shards=14, shard_depth=10)
 def parse_call(queue: Chunks, ids: IDS):
     B = concat_chunks(queue)
     unfold(ref_scan, B, 0, ids)
